@@ -291,7 +291,7 @@ func (d *driver) driveAccounts(ntraces, nops int) {
 				case 1:
 					deps[0].N = 0
 				}
-				d.exchange(Act{Op: "BeginFund", S: 1, Deps: deps, Sf: flaw(rng, 8, sfClasses...)}, "", "", pick(rng, "finish", "finish", "finish", "abort1"))
+				d.exchange(Act{Op: "BeginFund", S: 1, Deps: deps, Sf: flaw(rng, 8, sfClasses...), Af: flaw(rng, 4, "ovfLast", "ovfMid", "tooBig")}, "", "", pick(rng, "finish", "finish", "finish", "abort1"))
 			case x < 26: // replenish accounts / pools
 				kind := pick(rng, "accts", "pools")
 				names := TraceAccounts
@@ -312,7 +312,7 @@ func (d *driver) driveAccounts(ntraces, nops int) {
 				if rng.Intn(25) == 0 {
 					target = 0
 				}
-				d.exchange(Act{Op: "BeginRepl", S: 1, Kind: kind, Accs: accs, Target: target, Cf: flaw(rng, 8, cfClasses...)}, "Round2Repl", flaw(rng, 8, sfClasses...), d.stopPoint())
+				d.exchange(Act{Op: "BeginRepl", S: 1, Kind: kind, Accs: accs, Target: target, Cf: flaw(rng, 8, cfClasses...), Af: flaw(rng, 4, "ovfLast", "ovfMid")}, "Round2Repl", flaw(rng, 8, sfClasses...), d.stopPoint())
 			case x < 36: // attach
 				var b []Entry
 				for i, k := 0, 1+rng.Intn(2); i < k; i++ {
@@ -478,6 +478,8 @@ func TestDriver(t *testing.T) {
 			d.driveRevisions(ntraces, nops)
 		case "concurrent":
 			d.driveConcurrent(ntraces, nops)
+		case "overflow":
+			d.driveOverflow(hx.EnvInt("VERIF_MAXLEN", 4))
 		case "clientfree":
 			d.driveClientFree(hx.EnvInt("VERIF_MAXN", 4), hx.EnvInt("VERIF_MAXLEN", 4))
 		default:
